@@ -113,8 +113,15 @@ def run(ctx):
         lens = {c.path.encode("utf-8"): len(c) for c in cl.channels_of(f)}
         if not lens:
             continue
-        for _ in range(2):
-            ops = cl.gen_history(ctx.rnd, lens)
+        histories = [cl.gen_history(ctx.rnd, lens) for _ in range(2)]
+        if max(lens.values()) > 100 and len(lens) > 1:
+            # long channels: touch every channel once, then read the tail of every channel (state shared between channels, such as
+            # de-duplicated offset arrays, only differs late in long files)
+            ps = sorted(lens)
+            histories.append([("R", p, 0, None) for p in ps] + [("I", p, lens[p] - k) for p in reversed(ps) for k in (1, 2, 3)]
+                             + [("R", p, max(0, lens[p] - 5), None) for p in ps])
+            histories.append([("I", ps[-1], 0), ("I", ps[0], lens[ps[0]] - 2), ("S", ps[0], -4, None, None), ("R", ps[-1], lens[ps[-1]] - 4, 4)])
+        for ops in histories:
             stats["histories"] += 1
             d, v = check_history(ctx, model, nptdms, data, ops, lens, stats)
             disagreements += d
@@ -135,7 +142,7 @@ def run(ctx):
             break
     return dict(violations=violations, disagreements=disagreements,
                 coverage=dict(evaluations=stats["ops"], distinct_nontrivial=stats["with_iter_interleaving"],
-                              rule=RULE_FILES + "; per file two random histories of 1-30 operations (index / slice / read_data / new channel iterator / new "
+                              rule=RULE_FILES + "; per file two random histories of 1-30 operations (for channels longer than 100 values two more that read the tail of every channel after touching the others) (index / slice / read_data / new channel iterator / new "
                                    "file iterator / next on any of up to 3 live iterators); non-trivial = distinct (file, history) pairs in which a direct read "
                                    "happens between two next() calls of a live iterator",
                               samples=samples, histories=stats["histories"], files=fs.drawn, feature_counts=dict(sorted(fs.feats.items()))))
